@@ -37,15 +37,21 @@ def expect_connection_onHup : List String := [
   "c.closeBy(poller)",
   "c.triggerRead(Exception(ErrEOF, \"peer close\"))",
   "c.triggerWrite(Exception(ErrConnClosed, \"peer close\"))",
+  "c.onDisconnect()",
   "c.onConnectCallback.Load()",
   "c.onRequestCallback.Load()",
-  "c.getState()"]
+  "c.inputBuffer.Len()",
+  "c.getState()",
+  "c.onProcess(nil,req)",
+  "c.closeCallback(true,false)"]
 
 def expect_connection_onClose : List String := [
   "c.closeBy(user)",
   "c.triggerRead(Exception(ErrConnClosed, \"self close\"))",
   "c.triggerWrite(Exception(ErrConnClosed, \"self close\"))",
-  "c.force(closing,user)"]
+  "c.closeCallback(true,true)",
+  "c.force(closing,user)",
+  "c.closeCallback(true,false)"]
 
 def expect_connection_closeCallback : List String := [
   "c.lock(processing)",
@@ -57,7 +63,8 @@ def expect_connection_onConnect : List String := [
   "c.onConnectCallback.Load()",
   "c.changeState(connStateNone,connStateConnected)",
   "c.lock(connecting)",
-  "c.onRequestCallback.Load()"]
+  "c.onRequestCallback.Load()",
+  "c.onProcess(onConnect,onRequest)"]
 
 def expect_connection_onDisconnect : List String := [
   "c.onDisconnectCallback.Load()",
@@ -73,25 +80,38 @@ def expect_connection_onDisconnect : List String := [
 def expect_connection_onRequest : List String := [
   "c.onRequestCallback.Load()",
   "c.getState()",
-  "c.onConnectCallback.Load()"]
+  "c.onConnectCallback.Load()",
+  "c.onProcess(nil,onRequest)"]
 
 def expect_connection_onProcess : List String := [
   "c.lock(processing)",
+  "c.IsActive()",
   "c.unlock(processing)",
   "c.Close()",
+  "c.closeCallback(false,c.isCloseBy(user))",
   "c.isCloseBy(user)",
   "c.changeState(connStateNone,connStateConnected)",
   "callback OnConnect onConnect",
   "c.unlock(connecting)",
+  "c.IsActive()",
+  "c.onDisconnect()",
+  "c.Reader().Len()",
   "callback OnRequest onRequest",
   "c.status(closing)",
+  "c.Reader().Len()",
   "callback OnRequest onRequest",
+  "c.closeCallback(false,needDetach)",
   "c.unlock(processing)",
   "c.status(closing)",
   "c.lock(processing)",
-  "c.lock(processing)"]
+  "c.Reader().Len()",
+  "c.lock(processing)",
+  "runner.RunTask(c.ctx,task)"]
 
 def expect_connection_inputAck : List String := [
+  "c.inputBuffer.bookAck(0)",
+  "c.inputBuffer.bookAck(n)",
+  "c.onRequest()",
   "atomic.LoadInt64(&c.waitReadSize)",
   "c.triggerRead(nil)"]
 
@@ -103,10 +123,12 @@ def expect_connection_triggerWrite : List String := [
   "select",
   "send c.writeTrigger"]
 
-def expect_connection_Close : List String := []
+def expect_connection_Close : List String := [
+  "c.onClose()"]
 
 def expect_connection_Detach : List String := [
-  "atomic.StoreInt32(&c.detaching,1)"]
+  "atomic.StoreInt32(&c.detaching,1)",
+  "c.onClose()"]
 
 def expect_connection_IsActive : List String := [
   "c.isCloseBy(none)"]
@@ -114,17 +136,22 @@ def expect_connection_IsActive : List String := [
 def expect_connection_initFinalizer : List String := [
   "c.stop(flushing)",
   "c.operator.Free()",
-  "c.netFD.Close()"]
+  "c.netFD.Close()",
+  "c.closeBuffer()"]
 
 def expect_connection_onPrepare : List String := [
-  "callback OnPrepare opts.onPrepare"]
+  "callback OnPrepare opts.onPrepare",
+  "c.IsActive()",
+  "c.register()"]
 
 def expect_connection_register : List String := [
   "c.operator.Control(PollReadable)",
   "c.Close()"]
 
 def expect_connection_SetOnRequest : List String := [
-  "c.onRequestCallback.Store(onRequest)"]
+  "c.onRequestCallback.Store(onRequest)",
+  "c.inputBuffer.IsEmpty()",
+  "c.onRequest()"]
 
 def expect_connection_AddCloseCallback : List String := [
   "c.closeCallbacks.Load()",
@@ -163,7 +190,8 @@ def expect_FDOperator_unused : List String := [
   "runtime.Gosched()"]
 
 def expect_operatorCache_freeable : List String := [
-  "op.unused()"]
+  "op.unused()",
+  "op.reset()"]
 
 def expect_netFD_Close : List String := [
   "atomic.AddUint32(&c.closed,1)",
@@ -177,7 +205,9 @@ def expect_UnsafeLinkBuffer_recalLen : List String := [
   "atomic.AddInt64(&b.length,int64(delta))"]
 
 def expect_server_onAccept : List String := [
+  "nconn.IsActive()",
   "s.connections.Delete(fd)",
-  "s.connections.Store(fd,nconn)"]
+  "s.connections.Store(fd,nconn)",
+  "nconn.onConnect()"]
 
 end Netpoll.Conn.LifeSync
